@@ -4871,6 +4871,10 @@ func (c *BytecodeCompiler) compileGenericMethodCallNode(node *ast.GenericMethodC
 }
 
 func (c *BytecodeCompiler) compileMethodCall(receiver ast.ExpressionNode, op *token.Token, nameNode ast.IdentifierNode, args []ast.ExpressionNode, tailCall bool, location *position.Location) {
+	if c.hasDefer {
+		// a tail call reuses the frame and never comes back to run the deferred expressions
+		tailCall = false
+	}
 	name := identifierToName(nameNode)
 
 	switch op.Type {
